@@ -202,6 +202,11 @@ def run_hist(job):
                     break
                 prev = x
                 s.pump(0.01)
+            if i < len(hist) - 1:
+                # the forced full redraw below resets fzf's row cache: only the LAST action of a history is judged, shorter
+                # histories are jobs of their own
+                s.settle_screen(0.03)
+                continue
             inc = s.settle_screen(0.06)
             cur1 = (s.screen.y, s.screen.x)
             over1 = s.screen.overflow
